@@ -49,6 +49,17 @@ class ClassRef:
         self.attrs = attrs or {}   # class attributes (enum members)
 
 
+_CLASS_REFS: dict = {}
+
+
+def class_ref(name):
+    """the one class object standing for a class known by name only (so that `type(x) is model.X` holds)"""
+    r = _CLASS_REFS.get(name)
+    if r is None:
+        r = _CLASS_REFS[name] = ClassRef(name)
+    return r
+
+
 class ModuleRef:
     def __init__(self, name, interp=None, attrs=None):
         self.name = name
@@ -663,7 +674,7 @@ class Interp:
             return HOST_TYPES[name]
         if name in ("isinstance", "issubclass", "hasattr", "len", "any", "all", "repr", "sorted", "min", "max",
                     "enumerate", "zip", "range", "abs", "getattr", "filter", "map", "next", "iter", "reversed", "sum",
-                    "divmod", "pow", "round", "ord", "chr"):
+                    "divmod", "pow", "round", "ord", "chr", "id"):
             return ("builtin", name)
         if name == "NotImplemented":
             return NotImplemented
@@ -944,6 +955,8 @@ class Interp:
         if isinstance(obj, ModuleRef):
             if a in obj.attrs:
                 return obj.attrs[a]
+            if obj.name.split(".")[-1] == "model" and a[:1].isupper() and (obj.interp is None or a not in obj.interp.globals):
+                return class_ref(a)          # `model.Property` as a class object (type tests against the model classes)
             if obj.interp is not None:
                 if a in obj.interp.globals:
                     return obj.interp.globals[a]
@@ -1092,6 +1105,9 @@ class Interp:
         if isinstance(f, ModuleRef) and "__call__" in f.attrs:
             return self.apply(f.attrs["__call__"], args, kwargs)
         if f is type and len(args) == 1:
+            if isinstance(args[0], Record):
+                g_ = self.globals.get(args[0].cls_name)
+                return g_ if isinstance(g_, ClassRef) else class_ref(args[0].cls_name)
             return type(args[0]) if not isinstance(args[0], (Record, ClassRef, ModuleRef)) else ClassRef("type")
         if f is object and not args and not kwargs:
             return Sentinel()        # `_MISSING = object()`: a fresh value equal and identical only to itself
@@ -1134,6 +1150,8 @@ class Interp:
         raise AnalysisError(f"{self.name}: call of {f!r} is outside the subset")
 
     def builtin(self, name, args, kwargs):
+        if name == "id":
+            return id(args[0])        # identity of the evaluator's own object: distinct objects, distinct ids
         if name in ("divmod", "pow", "round", "ord", "chr"):
             if any(isinstance(a, (Record, ClassRef, ModuleRef)) for a in args):
                 raise AnalysisError(f"{self.name}: {name}() of a model object")
